@@ -404,6 +404,12 @@ class SArr:
         s.version += 1
         return s
 
+    def __itruediv__(s, o):
+        r = s.__truediv__(o)
+        s.elems[:] = r.elems
+        s.version += 1
+        return s
+
     def __imul__(s, o):
         r = s.__mul__(o)
         s.elems[:] = r.elems
@@ -789,6 +795,11 @@ class SymNP:
         return _isnan1(a)
 
     @staticmethod
+    def isfinite(a):
+        return ~SymNP.asarray(SymNP.isnan(a)) if isinstance(
+            a, (SArr, list, real_np.ndarray)) else _bnot(_isnan1(a))
+
+    @staticmethod
     def isinf(a):
         if isinstance(a, SArr):
             return a._map(lambda x: False, bool)
@@ -919,6 +930,42 @@ def _elems(a):
     return list(a)
 
 
+class _ColView:
+    """list-like window onto column j of a row-list matrix"""
+
+    def __init__(self, rows, j, idxs=None):
+        self.rows, self.j = rows, j
+        self.idxs = list(range(len(rows))) if idxs is None else list(idxs)
+
+    def __len__(self):
+        return len(self.idxs)
+
+    def __iter__(self):
+        return iter([self.rows[i][self.j] for i in self.idxs])
+
+    def __getitem__(self, k):
+        if isinstance(k, slice):
+            return [self.rows[i][self.j] for i in self.idxs[k]]
+        return self.rows[self.idxs[k]][self.j]
+
+    def __setitem__(self, k, v):
+        if isinstance(k, slice):
+            tgt = self.idxs[k]
+            v = list(v)
+            if len(v) != len(tgt):
+                raise ValueError("view size cannot change")
+            for i, x in zip(tgt, v):
+                self.rows[i][self.j] = x
+        else:
+            self.rows[self.idxs[k]][self.j] = v
+
+    def __add__(self, o):
+        return list(self) + list(o)
+
+    def __mul__(self, n):
+        return list(self) * n
+
+
 class SMat:
     """2-D array (rows x cols) with symbolic entries, concrete shape"""
     __array_priority__ = 1000
@@ -974,11 +1021,25 @@ class SMat:
                     cols = list(range(*c.indices(self.ncols)))
                     return SMat([[self.rows[i][j] for j in cols] for i in rs],
                                 self.dtype)
-                return SArr([self.rows[i][_conc_int(c)] for i in rs],
-                            self.dtype)
+                # a column: VIEW sharing storage with the matrix
+                col = SArr.__new__(SArr)
+                col.elems = _ColView(self.rows, _conc_int(c), rs)
+                col.dtype = self.dtype
+                col.item_shape = ()
+                col.version = 0
+                col.flags = _Flags()
+                col.base = self
+                return col
             if isinstance(c, slice):
                 return SArr(self.rows[rs][c], self.dtype)
             return self.rows[rs][_conc_int(c)]
+        if isinstance(idx, SArr) and idx.dtype == bool:
+            if len(idx) != len(self.rows):
+                raise IndexError("boolean index did not match")
+            sel = [i for i, b in enumerate(idx.elems) if _truth(b)]
+            m = SMat([self.rows[i] for i in sel], self.dtype)
+            m.ncols = self.ncols
+            return m
         rs = self._rowsel(idx)
         if isinstance(rs, list):
             return SMat([self.rows[i] for i in rs], self.dtype)
